@@ -67,6 +67,39 @@ Qed.
 
 Section Binders.
   Variable p : fcprog.
+  Lemma darg_frag : forall y, darg_ok p y = true -> frag p y = true.
+  Proof. intros y H. unfold darg_ok in H. apply andb_prop in H. destruct H as [H _]. apply andb_prop in H. tauto. Qed.
+
+  Lemma bnd_ub_terms : forall args,
+    Forall (fun t => forall acc x, frag p t = true -> In x (bnd t) -> In x (used_binders t acc)) args ->
+    (forall y, In y args -> bnd y = [] \/ frag p y = true) ->
+    forall acc z, In z (flat_map bnd args) -> In z (ub_terms args acc).
+  Proof.
+    intros args H. induction H as [|y l Hy Hl IH]; intros Hf acc z Hz; simpl in Hz; [contradiction|].
+    unfold ub_terms. simpl. fold (ub_terms l (used_binders y acc)).
+    apply in_app_or in Hz. destruct Hz as [Hz|Hz].
+    - apply ub_terms_mono. destruct (Hf y (or_introl eq_refl)) as [E|Hfy]; [rewrite E in Hz; contradiction|].
+      apply Hy; assumption.
+    - apply IH; [|exact Hz]. intros y0 Hy0. apply Hf. right. exact Hy0.
+  Qed.
+  Lemma bnd_ub_cls : forall cls,
+    Forall (fun c => forall acc x, frag p (clause_body c) = true -> In x (bnd (clause_body c)) -> In x (used_binders (clause_body c) acc)) cls ->
+    forallb (fun c => match c with FClause _ _ names ctx body =>
+                          list_eqb String.eqb names (fvars ctx) && ctx_data p ctx && frag p body end) cls = true ->
+    forall acc z, In z (flat_map (fun c => match c with FClause _ _ _ ctx body => fvars ctx ++ bnd body end) cls) -> In z (ub_cls cls acc).
+  Proof.
+    intros cls H. induction H as [|[pl x0 names ctx body] l Hy Hl IH]; intros Hfc acc z Hz; simpl in Hz; [contradiction|].
+    simpl in Hfc. apply andb_prop in Hfc. destruct Hfc as [Hfy Hfl].
+    apply andb_prop in Hfy. destruct Hfy as [Hfy Hfb]. apply andb_prop in Hfy. destruct Hfy as [Hnames _].
+    apply str_list_eqb_eq in Hnames. subst names.
+    unfold ub_cls. simpl. fold (ub_cls l (used_binders body (rev_append (fvars ctx) acc))).
+    apply in_app_or in Hz. destruct Hz as [Hz|Hz].
+    - apply ub_cls_mono. apply in_app_or in Hz. destruct Hz as [Hz|Hz].
+      + apply used_binders_mono. rewrite rev_append_rev. apply in_or_app. left. apply in_rev in Hz. exact Hz.
+      + simpl in Hy. apply Hy; assumption.
+    - apply IH; assumption.
+  Qed.
+
   Lemma bnd_used_binders : forall t acc x, frag p t = true -> In x (bnd t) -> In x (used_binders t acc).
   Proof.
     induction t using fterm_ind'; intros acc z Hf Hz; simpl in Hf; try discriminate; try (simpl in Hz; contradiction).
@@ -85,7 +118,7 @@ Section Binders.
     - apply andb_prop in Hf. destruct Hf as [Hf1 Hf2]. simpl in Hz. simpl. apply in_app_or in Hz. destruct Hz as [Hz|Hz].
       + apply used_binders_mono. apply IHt1; assumption.
       + apply IHt2; assumption.
-    - apply andb_prop in Hf. destruct Hf as [Hf Hf2]. apply andb_prop in Hf. destruct Hf as [_ Hf1].
+    - apply andb_prop in Hf. destruct Hf as [Hf1 Hf2].
       simpl in Hz. simpl. destruct Hz as [Hz|Hz].
       + subst z. apply used_binders_mono. apply used_binders_mono. left. reflexivity.
       + apply in_app_or in Hz. destruct Hz as [Hz|Hz].
@@ -93,36 +126,26 @@ Section Binders.
         * apply IHt2; assumption.
     - (* call *)
       apply andb_prop in Hf. destruct Hf as [_ Hf]. simpl in Hz. rewrite used_binders_call.
-      revert acc. induction H as [|y l Hy Hl IH]; intros acc; simpl in Hz; [contradiction|].
-      simpl in Hf. apply andb_prop in Hf. destruct Hf as [Hfy Hfl].
-      unfold ub_terms. simpl. fold (ub_terms l (used_binders y acc)).
-      apply in_app_or in Hz. destruct Hz as [Hz|Hz].
-      + apply ub_terms_mono. destruct y; try (apply andb_prop in Hfy; destruct Hfy as [Hfy _]; apply Hy; assumption).
-        simpl in Hz. contradiction.
-      + apply IH; assumption.
+      apply bnd_ub_terms; [exact H | | exact Hz].
+      intros y Hy. rewrite forallb_forall in Hf. specialize (Hf y Hy).
+      destruct y; try (right; apply andb_prop in Hf; tauto). left. reflexivity.
     - (* ctor *)
-      apply andb_prop in Hf. destruct Hf as [_ Hf]. simpl in Hz. rewrite used_binders_ctor.
-      revert acc. induction H as [|y l Hy Hl IH]; intros acc; simpl in Hz; [contradiction|].
-      simpl in Hf. apply andb_prop in Hf. destruct Hf as [Hfy Hfl].
-      unfold ub_terms. simpl. fold (ub_terms l (used_binders y acc)).
-      apply in_app_or in Hz. destruct Hz as [Hz|Hz].
-      + apply ub_terms_mono. destruct y; try (apply andb_prop in Hfy; destruct Hfy as [Hfy _]; apply Hy; assumption).
-        simpl in Hz. contradiction.
-      + apply IH; assumption.
+      simpl in Hz. rewrite used_binders_ctor.
+      apply bnd_ub_terms; [exact H | | exact Hz].
+      intros y Hy. rewrite forallb_forall in Hf. right. apply darg_frag. apply Hf. exact Hy.
+    - (* dtor *)
+      apply andb_prop in Hf. destruct Hf as [Hf _]. apply andb_prop in Hf. destruct Hf as [Hfs Hfa].
+      simpl in Hz. rewrite used_binders_dtor. apply in_app_or in Hz. destruct Hz as [Hz|Hz].
+      + apply ub_terms_mono. apply IHt; assumption.
+      + apply bnd_ub_terms; [exact H | | exact Hz].
+        intros y Hy. rewrite forallb_forall in Hfa. right. apply darg_frag. apply Hfa. exact Hy.
     - (* case *)
       apply andb_prop in Hf. destruct Hf as [Hf Hfc]. apply andb_prop in Hf. destruct Hf as [Hfs _].
       simpl in Hz. rewrite used_binders_case. apply in_app_or in Hz. destruct Hz as [Hz|Hz].
       + apply ub_cls_mono. apply IHt; assumption.
-      + generalize (used_binders t acc). induction H as [|[pl x0 names ctx body] l Hy Hl IH]; intros a; simpl in Hz; [contradiction|].
-        simpl in Hfc. apply andb_prop in Hfc. destruct Hfc as [Hfy Hfl].
-        apply andb_prop in Hfy. destruct Hfy as [Hfy Hfb]. apply andb_prop in Hfy. destruct Hfy as [Hnames _].
-        apply str_list_eqb_eq in Hnames. subst names.
-        unfold ub_cls. simpl. fold (ub_cls l (used_binders body (rev_append (fvars ctx) a))).
-        apply in_app_or in Hz. destruct Hz as [Hz|Hz].
-        * apply ub_cls_mono. apply in_app_or in Hz. destruct Hz as [Hz|Hz].
-          -- apply used_binders_mono. rewrite rev_append_rev. apply in_or_app. left. apply in_rev in Hz. exact Hz.
-          -- simpl in Hy. apply Hy; assumption.
-        * apply IH; assumption.
+      + apply bnd_ub_cls; assumption.
+    - (* new *)
+      simpl in Hz. rewrite used_binders_new. apply bnd_ub_cls; assumption.
     - (* label *)
       apply andb_prop in Hf. destruct Hf as [_ Hf]. simpl in Hz. simpl. destruct Hz as [Hz|Hz].
       + subst z. apply used_binders_mono. left. reflexivity.
@@ -227,8 +250,9 @@ Section Prog.
     apply mret_inv in Eb. destruct Eb as [E1 E2]. injection E1 as E1 E3. subst a0 body0 stb.
     destruct (fresh_in_vars_inv _ _ _ _ Ha) as [Hfresh [Hused _]]. simpl in Hfresh, Hused.
     pose proof (guard_of d Hin) as Hgd. unfold def_guard in Hgd. rewrite Em in Hgd.
+    apply andb_prop in Hgd. destruct Hgd as [Hgd Hkeq]. apply andb_prop in Hgd. destruct Hgd as [Hgd Hkd].
     apply andb_prop in Hgd. destruct Hgd as [Hgd _]. apply andb_prop in Hgd. destruct Hgd as [Hgd Hnc].
-    apply andb_prop in Hgd. destruct Hgd as [Hfr Hws].
+    apply andb_prop in Hgd. destruct Hgd as [Hfr Hws]. apply Bool.eqb_prop in Hkeq.
     exists a, body, sta, st', (compile_ty bty).
     split; [exact Hwc|]. split; [rewrite Hused; left; reflexivity|].
     split; [intros Hb; apply Hfresh; apply (bnd_used_binders p); assumption|].
@@ -241,7 +265,7 @@ Section Prog.
     { change (new_id (fdname d)) with (cdname (mkcd (new_id (fdname d))
                (compile_ctx (fdctx d) ++ [mkcb (new_id a) CCns (compile_ty (fdret d))]) body)).
       apply prog_find. rewrite Hcd. apply Hincl. left. reflexivity. }
-    auto.
+    repeat split; assumption.
   Qed.
 End Prog.
 
@@ -288,8 +312,12 @@ Proof.
   pose proof (guard_of p Hguard d Hin) as Hgd. unfold def_guard in Hgd.
   assert (Em : String.eqb (fdname d) "main" = true) by (apply String.eqb_eq; exact Hname).
   rewrite Em, Ebty in Hgd.
-  apply andb_prop in Hgd. destruct Hgd as [Hgd Hdt]. apply andb_prop in Hgd. destruct Hgd as [Hgd Hnc].
+  apply andb_prop in Hgd. destruct Hgd as [Hgd Hkeq]. apply andb_prop in Hgd. destruct Hgd as [Hgd Hkd].
+  apply andb_prop in Hgd. destruct Hgd as [Hgd Hdt]. apply andb_prop in Hdt. destruct Hdt as [Hdt Hctxd].
+  apply andb_prop in Hgd. destruct Hgd as [Hgd Hnc].
   apply andb_prop in Hgd. destruct Hgd as [Hfr Hws].
+  assert (Hkmain : tkind p (fdbody d) = false).
+  { unfold tkind. rewrite Ebty. simpl. unfold data_ty in Hdt. apply negb_true_iff in Hdt. exact Hdt. }
   unfold run_core. rewrite Hcd. simpl.
   unfold fentry_env in Hrun. unfold centry_env. simpl. rewrite entry_chi.
   destruct (forallb (fun b => match fbchi b with FPrd => true | FCns => false end) (fdctx d)) eqn:Eprd;
@@ -299,7 +327,7 @@ Proof.
   rewrite forallb_prd_eq in Eprd.
   assert (Hdf : Forall dfield (map (fun z => FbP (FvInt z)) args)).
   { apply Forall_forall. intros b Hb. apply in_map_iff in Hb. destruct Hb as [z [E _]]. subst b. exact I. }
-  destruct (kinds_of_fields (fdctx d) _ _ _ Hdf Eprd Ebind) as [Hk1 Hk2].
+  destruct (kinds_of_fields p c Hcod (fdctx d) _ _ _ Hdf Hctxd Ebind) as [Hk1 Hk2].
   set (cont := CMu CCns (new_id x0) (CExit (CXVar CPrd (new_id x0) (compile_ty bty)) (compile_ty bty)) (compile_ty bty)) in *.
   destruct (erel_binds p c n [] (fdctx d) (Sof (fvs body)) (fun _ => True)
               (map (fun z => FbP (FvInt z)) args) (map (fun z => BP (PInt z)) args) [] [] e1) as [ce1 [Hcb [Hr _]]].
@@ -312,18 +340,18 @@ Proof.
   - rewrite Hcb. rewrite app_nil_r in Hr.
     assert (Hsim : sim p c n (FEval (fdbody d) e1 FkHalt) (SNext (Run body ce1))).
     { apply (proj1 (fl_all p c Hcod Hcallee n (fdbody d)) n (Nat.le_refl n) (compile_ctx (fdctx d)) (fdname d) cont stx body st'
-               e1 ce1 FkHalt Hwc Hfr Hws Hnc).
+               e1 ce1 FkHalt Hwc Hfr Hkd Hws Hnc).
       - intros d' Hd'. apply (prog_find p c Hcomp Hnd). rewrite Hcd. apply in_or_app. left. right. exact Hd'.
       - intros bb Hb. unfold compile_ctx in Hb. apply in_map_iff in Hb. destruct Hb as [b0 [E Hb0]]. subst bb.
         exists (fbvar b0). split; [reflexivity|]. rewrite Hused. right. apply used_binders_mono. unfold fvars. apply in_map. exact Hb0.
       - intros y Hy. rewrite Hused. right. apply (bnd_used_binders p); assumption.
       - intros y Hy. apply in_cnames_inv in Hy. destruct Hy as [bb [Hb _]]. exfalso. exact (exit_cont_fvt _ _ _ Hb).
       - intros y _ Hy. apply in_cnames_inv in Hy. destruct Hy as [bb [Hb _]]. exact (exit_cont_fvt _ _ _ Hb).
-      - unfold cont. simpl. split; [reflexivity|]. split.
+      - rewrite Hkmain. unfold cont. simpl. split; [reflexivity|]. split; [reflexivity|]. split.
         + rewrite (is_codata_compile p c Hcod). unfold data_ty in Hdt. apply negb_true_iff in Hdt. exact Hdt.
         + intros Hy. apply in_cnames_inv in Hy. destruct Hy as [bb [Hb _]]. exact (exit_cont_fvt _ _ _ Hb).
       - exact Hr.
-      - split.
+      - rewrite Hkmain. split.
         + intros bb Hb _. exfalso. exact (exit_cont_fvt _ _ _ Hb).
         + intros _. unfold cont. simpl. intros j Hj v pv Hd Hv env Ha.
           destruct j as [|j1]; [apply sim_zero|].
